@@ -90,6 +90,9 @@ let observation (iters : iter list) (tr : out list list) : string =
   "OBS " ^ string_of_int (List.length iters) ^ (if l = [] then "" else " " ^ String.concat " " l)
 
 let run_case (line : string) : string =
+  (* "na": model-free family (host names with non-ASCII cased letters, judged on the trace by the Python
+     projection); the model line is a constant *)
+  if line = "na" then "NA ok" else
   let (ifs, iters, _) = parse_history (String.split_on_char ' ' line) in
   observation iters (run_history ifs iters)
 
@@ -240,6 +243,7 @@ let verdict ifs iters (fs : fail list) : string =
     Printf.sprintf "FAIL[%s] %s (%d failures)" (String.concat "," tags) (snd (List.hd tagged)) (List.length fs)
 
 let run_monitor (id : string) (case : string list) (result : string) : string =
+  if case = [ "na" ] then (if result = "NA ok" then "PASS" else "FAIL[nonascii] " ^ result) else
   if not (starts_with result "OBS ") then "FAIL[noobs] " ^ result else
   let (ifs, iters, wakes) = parse_history case in
   let a = parse_observation result in
